@@ -10,7 +10,13 @@ AST + import, regenerated on every run:
   the defaults, every `sys.exit(n)` with its context, the `except` clauses of the final `try`
   (exception -> message format, exit status), which variable feeds which call;
 * chassis.py: `chassis_control_*` method -> option constant (value from msgs/chassis.py);
-* the interface names `create_interface` knows.
+* the interface names `create_interface` knows;
+* pyipmi/errors.py: the exception classes (each must derive directly from Exception);
+* every `int(args[k])` / `int(args[k], 0)` of a handler (entry, argument index, base 0?);
+* whether `ipmi.close()` sits inside the try that carries the except clauses;
+* the printing handlers: does `print_link_state` tolerate None, does `sdr_show` guard the optional record
+  attributes, which exception classes are caught between `convert_sensor_raw_to_value` and `main`;
+* sdr.py: record type -> class -> does its `_from_data` set an ID string / an entity.
 
 Fails closed: any shape outside this grammar raises TieBroken.
 """
@@ -168,7 +174,8 @@ def _commands(tree, module_funcs):
             raise TieBroken('handler of %r does not take exactly (ipmi, args)' % name)
         refs = _analyze(fnode, a.args[0].arg, module_funcs, set(), name)
         refs.sort(key=lambda r: (r[0], r[1]))
-        out.append({'name': name, 'handler': hname, 'refs': [r[2:] for r in refs], 'line': el.lineno})
+        out.append({'name': name, 'handler': hname, 'refs': [r[2:] for r in refs], 'line': el.lineno,
+                    'node': fnode})
     return out
 
 
@@ -219,8 +226,11 @@ def _conv(value, aname):
         if len(t) == 3 and isinstance(t[0], ast.Constant) and isinstance(t[2], ast.Constant) \
                 and isinstance(t[0].value, int) and isinstance(t[2].value, int) \
                 and t[0].value >= 0 and t[2].value >= 0 \
-                and _is_call(t[1], 'int') and len(t[1].args) == 1 and _is_name(t[1].args[0], aname):
-            return '(Conv.routeChannel %d %d)' % (t[0].value, t[2].value)
+                and _is_call(t[1], 'int') and not t[1].keywords and t[1].args and _is_name(t[1].args[0], aname):
+            if len(t[1].args) == 1:
+                return '(Conv.routeChannel %d %d false)' % (t[0].value, t[2].value)
+            if len(t[1].args) == 2 and isinstance(t[1].args[1], ast.Constant) and t[1].args[1].value == 0:
+                return '(Conv.routeChannel %d %d true)' % (t[0].value, t[2].value)
     raise TieBroken('main: unsupported option conversion at line %d' % value.lineno)
 
 
@@ -366,7 +376,8 @@ def _main(tree, intern):
                     sinks[fname] = [s.test.left.id] + names_of(s.body[0].value)
                 else:
                     raise TieBroken('main: statement under "if %s is not None" is outside the grammar' % guard)
-        elif isinstance(st, ast.Try) and st.finalbody:
+        elif isinstance(st, ast.Try) and (st.finalbody or (
+                len(st.body) == 1 and isinstance(st.body[0], ast.Try) and st.body[0].finalbody)):
             final_try = st
     for k in ('noArgsExit', 'noCmdExit', 'ifaceErrExit'):
         if k not in facts:
@@ -396,16 +407,49 @@ def _main(tree, intern):
     # --- final try: ipmi.open(); cmd(ipmi, args)  / except ... / finally: ipmi.close()
     if final_try is None:
         raise TieBroken('main: no try/finally around the handler call')
-    tb = [ast.unparse(s) for s in final_try.body]
-    if tb != ['ipmi.open()', 'cmd(ipmi, args)'] or [ast.unparse(s) for s in final_try.finalbody] != ['ipmi.close()']:
+    if final_try.finalbody:
+        # try: open; cmd  except …  finally: close
+        close_inside = False
+        inner = final_try
+    else:
+        # try: (try: open; cmd  finally: close)  except …
+        close_inside = True
+        inner = final_try.body[0]
+        if inner.handlers or inner.orelse:
+            raise TieBroken('main: the inner try around the handler call has except/else clauses')
+    if final_try.orelse:
+        raise TieBroken('main: the handler try has an else clause')
+    tb = [ast.unparse(s) for s in inner.body]
+    if tb != ['ipmi.open()', 'cmd(ipmi, args)'] or [ast.unparse(s) for s in inner.finalbody] != ['ipmi.close()']:
         raise TieBroken('main: body/finally of the handler try changed: %s' % tb)
     main_refs = [('open', True, 0, ()), ('close', True, 0, ())]
     clauses = []
+    lib_names = [n for n, _ in _error_classes()]
     for h in final_try.handlers:
-        tname = ast.unparse(h.type) if h.type is not None else 'BaseException'
-        short = tname.split('.')[-1]
-        kind = {'CompletionCodeError': 'ExcKind.completionCode', 'IpmiTimeoutError': 'ExcKind.timeout',
-                'KeyboardInterrupt': 'ExcKind.keyboardInterrupt'}.get(short, '(ExcKind.other %d)' % intern(short))
+        types = [None] if h.type is None else (list(h.type.elts) if isinstance(h.type, ast.Tuple) else [h.type])
+        kinds, shorts = [], []
+        for t in types:
+            tname = 'BaseException' if t is None else ast.unparse(t)
+            short = tname.split('.')[-1]
+            if tname.startswith('pyipmi.errors.') and short in lib_names:
+                kinds.append('.lib .%s' % _lib_ctor(short))
+            elif tname in ('socket.timeout', 'TimeoutError'):
+                kinds.append('.socketTimeout')
+            elif tname in ('OSError', 'IOError', 'EnvironmentError', 'socket.error'):
+                kinds.append('.osError')
+            elif tname == 'Exception':
+                kinds.append('.exception')
+            elif tname == 'BaseException':
+                kinds.append('.baseException')
+            elif tname == 'KeyboardInterrupt':
+                kinds.append('.keyboardInterrupt')
+            elif isinstance(t, ast.Name):
+                kinds.append('.other %s' % _lean_str(tname))
+            else:
+                raise TieBroken('main: except clause names %s, which is outside the grammar' % tname)
+            shorts.append(short)
+        kind = '[' + ', '.join(kinds) + ']'
+        short = '/'.join(shorts)
         msg = 'none'
         status = None
         for s in h.body:
@@ -417,6 +461,11 @@ def _main(tree, intern):
                         and isinstance(a.left.value, str) and a.left.value.endswith('%02x') \
                         and a.left.value.count('%') == 1 and h.name and ast.unparse(a.right) == h.name + '.cc':
                     msg = '(some (MsgFmt.hex2cc %s))' % _codes(a.left.value[:-4])
+                elif isinstance(a, ast.BinOp) and isinstance(a.op, ast.Mod) and isinstance(a.left, ast.Constant) \
+                        and isinstance(a.left.value, str) and a.left.value[-2:] in ('%r', '%s') \
+                        and a.left.value.count('%') == 1 and h.name and ast.unparse(a.right) == h.name:
+                    msg = '(some (MsgFmt.%s %s))' % ('reprExc' if a.left.value.endswith('%r') else 'strExc',
+                                                     _codes(a.left.value[:-2]))
                 else:
                     raise TieBroken('main: message of except %s is outside the grammar' % short)
             elif isinstance(s, ast.If) and _is_name(s.test, 'verbose') and \
@@ -430,7 +479,235 @@ def _main(tree, intern):
             raise TieBroken('main: except %s does not end the tool with sys.exit' % short)
         clauses.append((kind, msg, status, short))
     return {'optstring': optstring, 'vars': var_names, 'defaults': defaults, 'rules': rules,
-            'facts': facts, 'sinks': sinks, 'clauses': clauses, 'main_refs': main_refs}
+            'facts': facts, 'sinks': sinks, 'clauses': clauses, 'main_refs': main_refs,
+            'close_inside': close_inside}
+
+
+# -------------------------------------------------------------------------------- error classes
+def _lib_ctor(name):
+    return name[0].lower() + name[1:]
+
+
+def _error_classes():
+    """classes defined in pyipmi/errors.py, in source order -> [(name, [base names])]"""
+    import pyipmi.errors as E
+    tree = ast.parse(repo.read('pyipmi/errors.py'))
+    out = []
+    for st in tree.body:
+        if isinstance(st, ast.ClassDef):
+            cls = getattr(E, st.name, None)
+            if not (isinstance(cls, type) and issubclass(cls, BaseException)):
+                raise TieBroken('pyipmi.errors.%s is not an exception class' % st.name)
+            out.append((st.name, [b.__name__ for b in cls.__bases__]))
+    return out
+
+
+# ------------------------------------------------------------------- numeric handler arguments
+def _reachable_funcs(fnode, module_funcs):
+    """fnode and the module-level functions it calls by name, transitively -> [(name, node)]"""
+    seen, order, todo = set(), [], [fnode]
+    while todo:
+        f = todo.pop(0)
+        for n in ast.walk(f):
+            if isinstance(n, ast.Call) and isinstance(n.func, ast.Name) and n.func.id in module_funcs \
+                    and n.func.id not in seen:
+                seen.add(n.func.id)
+                order.append((n.func.id, module_funcs[n.func.id]))
+                todo.append(module_funcs[n.func.id])
+    return order
+
+
+def _arg_convs(cmd_nodes):
+    """[(entry index, argument index, base0)] for every int(<args>[k]) / int(<args>[k], 0) of a handler body.
+    `raw` (modelled as a whole by cmdRaw) is skipped; an int() over `args` in any other form is outside the
+    grammar."""
+    out = []
+    for idx, (name, fnode) in enumerate(cmd_nodes):
+        if name == 'raw':
+            continue
+        aname = fnode.args.args[1].arg
+        for n in ast.walk(fnode):
+            if not (isinstance(n, ast.Call) and isinstance(n.func, ast.Name) and n.func.id == 'int'):
+                continue
+            if not any(isinstance(x, ast.Name) and x.id == aname for a in n.args for x in ast.walk(a)):
+                continue
+            a0 = n.args[0]
+            if not (isinstance(a0, ast.Subscript) and _is_name(a0.value, aname) and isinstance(a0.slice, ast.Constant)
+                    and isinstance(a0.slice.value, int) and a0.slice.value >= 0 and not n.keywords):
+                raise TieBroken('%s: int() over %s in an unsupported form' % (name, aname))
+            if len(n.args) == 1:
+                base0 = False
+            elif len(n.args) == 2 and isinstance(n.args[1], ast.Constant) and n.args[1].value == 0:
+                base0 = True
+            else:
+                raise TieBroken('%s: int() with an unsupported base' % name)
+            out.append((idx, a0.slice.value, base0, n.lineno, n.col_offset))
+    out.sort(key=lambda t: (t[0], t[3], t[4]))
+    return [t[:3] for t in out]
+
+
+# ----------------------------------------------------------------------------- handler shape
+def _is_none_test(test, var, negated):
+    return (isinstance(test, ast.Compare) and _is_name(test.left, var) and len(test.ops) == 1
+            and isinstance(test.ops[0], ast.IsNot if negated else ast.Is)
+            and isinstance(test.comparators[0], ast.Constant) and test.comparators[0].value is None)
+
+
+def _link_guard(module_funcs):
+    f = module_funcs.get('print_link_state')
+    if f is None or not f.args.args:
+        raise TieBroken('no print_link_state(p, s)')
+    p = f.args.args[0].arg
+    body = [s for s in f.body if not (isinstance(s, ast.Expr) and isinstance(s.value, ast.Constant))]
+    if body and isinstance(body[0], ast.If) and _is_none_test(body[0].test, p, False) \
+            and isinstance(body[0].body[-1], ast.Return) and not body[0].orelse:
+        return True
+    if len(body) == 1 and isinstance(body[0], ast.If) and _is_none_test(body[0].test, p, True) and not body[0].orelse:
+        return True
+    # every use of p as p.<attr> would fail on None
+    return False
+
+
+def _has_attr_test(test, var, attrs):
+    """hasattr(var, '<one of attrs>') (possibly and-ed)"""
+    if isinstance(test, ast.BoolOp) and isinstance(test.op, ast.And):
+        return any(_has_attr_test(v, var, attrs) for v in test.values)
+    return (isinstance(test, ast.Call) and _is_name(test.func, 'hasattr') and len(test.args) == 2
+            and _is_name(test.args[0], var) and isinstance(test.args[1], ast.Constant) and test.args[1].value in attrs)
+
+
+def _sdr_show_guards(module_funcs):
+    f = module_funcs.get('sdr_show')
+    if f is None or len(f.args.args) != 2:
+        raise TieBroken('no sdr_show(ipmi, s)')
+    var = f.args.args[1].arg
+    par = _parents(f)
+    guards = {'device_id_string': True, 'entity': True}
+    seen = set()
+    for n in ast.walk(f):
+        if not (isinstance(n, ast.Attribute) and _is_name(n.value, var) and isinstance(n.ctx, ast.Load)):
+            continue
+        if n.attr == 'device_id_string':
+            key, names = 'device_id_string', ('device_id_string',)
+        elif n.attr in ('entity_id', 'entity_instance'):
+            key, names = 'entity', ('entity_id', 'entity_instance')
+        else:
+            continue
+        seen.add(key)
+        guarded = False
+        x = n
+        while x in par:
+            up = par[x]
+            if isinstance(up, ast.If) and x in up.body:
+                t = up.test
+                if _has_attr_test(t, var, names):
+                    guarded = True
+                # `if s.type is <FULL / COMPACT …>`: a record class that has the attribute
+                if isinstance(t, ast.Compare) and isinstance(t.left, ast.Attribute) and _is_name(t.left.value, var) \
+                        and t.left.attr == 'type':
+                    guarded = True
+            x = up
+        if not guarded:
+            guards[key] = False
+    if seen != {'device_id_string', 'entity'}:
+        # the header lines are gone: nothing to fail on
+        pass
+    return guards['device_id_string'], guards['entity']
+
+
+CONVERT = 'convert_sensor_raw_to_value'
+
+
+def _handler_names(try_node):
+    out = []
+    for h in try_node.handlers:
+        if h.type is None:
+            out.append('BaseException')
+            continue
+        for t in (h.type.elts if isinstance(h.type, ast.Tuple) else [h.type]):
+            out.append(ast.unparse(t).split('.')[-1])
+    return out
+
+
+def _catch_paths(fnode, module_funcs, inherited, depth=0):
+    """for every call of CONVERT reachable from fnode: the exception class names of all try statements that
+    enclose it (in fnode, and in the callers on the way) -> list of sets"""
+    if depth > 6:
+        raise TieBroken('helper recursion around %s' % CONVERT)
+    par = _parents(fnode)
+    out = []
+    for n in ast.walk(fnode):
+        if not isinstance(n, ast.Call):
+            continue
+        target = None
+        if isinstance(n.func, ast.Attribute) and n.func.attr == CONVERT:
+            target = 'convert'
+        elif isinstance(n.func, ast.Name) and n.func.id in module_funcs and module_funcs[n.func.id] is not fnode:
+            target = module_funcs[n.func.id]
+        if target is None:
+            continue
+        caught = set(inherited)
+        x = n
+        while x in par:
+            up = par[x]
+            if isinstance(up, ast.Try) and x in up.body:
+                caught.update(_handler_names(up))
+            x = up
+        if target == 'convert':
+            out.append(caught)
+        else:
+            out.extend(_catch_paths(target, module_funcs, caught, depth + 1))
+    return out
+
+
+def _conv_catch(cmd_nodes, module_funcs):
+    """command name -> classes caught on EVERY path from a CONVERT call to main (intersection over the calls)"""
+    out = []
+    for name, fnode in cmd_nodes:
+        paths = _catch_paths(fnode, module_funcs, set())
+        if paths:
+            common = set.intersection(*paths)
+            out.append((name, sorted(common)))
+    return out
+
+
+def _sdr_classes():
+    """sdr.py: SdrCommon.from_data's dispatch table: record type -> class -> (sets an ID string, sets an entity)"""
+    import pyipmi.sdr as S
+    tree = ast.parse(repo.read('pyipmi/sdr.py'))
+    classes = dict((st.name, st) for st in tree.body if isinstance(st, ast.ClassDef))
+
+    def facts(cname):
+        c = classes.get(cname)
+        if c is None:
+            raise TieBroken('sdr.py: no class %s' % cname)
+        fd = [m for m in c.body if isinstance(m, ast.FunctionDef) and m.name == '_from_data']
+        calls = set()
+        for m in fd:
+            for n in ast.walk(m):
+                if isinstance(n, ast.Call) and isinstance(n.func, ast.Attribute) and _is_name(n.func.value, 'self'):
+                    calls.add(n.func.attr)
+                if isinstance(n, ast.Attribute) and _is_name(n.value, 'self') and isinstance(n.ctx, ast.Store):
+                    calls.add('=' + n.attr)
+        return ('_device_id_string' in calls or '=device_id_string' in calls,
+                '_entity' in calls or '=entity_id' in calls)
+    common = classes.get('SdrCommon')
+    fd = [m for m in (common.body if common else []) if isinstance(m, ast.FunctionDef) and m.name == 'from_data']
+    if len(fd) != 1:
+        raise TieBroken('sdr.py: no SdrCommon.from_data')
+    table, default = None, None
+    for n in ast.walk(fd[0]):
+        if isinstance(n, ast.Call) and isinstance(n.func, ast.Attribute) and n.func.attr == 'get' \
+                and isinstance(n.func.value, ast.Dict) and len(n.args) == 2 and isinstance(n.args[1], ast.Name):
+            table, default = n.func.value, n.args[1].id
+    if table is None:
+        raise TieBroken('sdr.py: from_data has no {type: class}.get(type, default)')
+    out = []
+    for k, v in zip(table.keys, table.values):
+        if not (isinstance(k, ast.Name) and isinstance(getattr(S, k.id, None), int) and isinstance(v, ast.Name)):
+            raise TieBroken('sdr.py: from_data table entry outside the grammar')
+        out.append((getattr(S, k.id), v.id) + facts(v.id))
+    return out, (default,) + facts(default)
 
 
 # ---------------------------------------------------------------------------------------- API
@@ -538,8 +815,18 @@ def snapshot():
     chassis = _chassis(intern)
     import pyipmi.interfaces
     ifaces = [i.NAME for i in pyipmi.interfaces.INTERFACES]
+    cmd_nodes = [(c['name'], c.pop('node')) for c in cmds]
+    errors = _error_classes()
+    for n, bases in errors:
+        if bases != ['Exception']:
+            raise TieBroken('pyipmi.errors.%s derives from %s, not directly from Exception' % (n, bases))
+    idg, entg = _sdr_show_guards(module_funcs)
+    handlers = {'link': _link_guard(module_funcs), 'idstring': idg, 'entity': entg,
+                'catch': _conv_catch(cmd_nodes, module_funcs)}
+    sdr_classes, sdr_default = _sdr_classes()
     return {'api': api, 'commands': cmds, 'main': main, 'chassis': chassis, 'interfaces': ifaces,
-            'intern': intern}
+            'intern': intern, 'errors': [n for n, _ in errors], 'arg_convs': _arg_convs(cmd_nodes),
+            'handlers': handlers, 'sdr_classes': sdr_classes, 'sdr_default': sdr_default}
 
 
 def render(snap, namespace='PyIpmi.Gen.Cli', header=None):
@@ -592,7 +879,8 @@ def render(snap, namespace='PyIpmi.Gen.Cli', header=None):
                '  defaults := [%s]\n'
                '  getoptExit := %d\n  noArgsExit := %d\n  noCmdExit := %d\n  ifaceErrExit := %d\n'
                '  vIface := %d\n  vIfaceOpts := %d\n  vTarget := %d\n  vRouting := %d\n'
-               '  vHost := %d\n  vPort := %d\n  vUser := %d\n  vPassword := %d\n  vPriv := %d }' % (
+               '  vHost := %d\n  vPort := %d\n  vUser := %d\n  vPassword := %d\n  vPriv := %d\n'
+               '  closeInside := %s }' % (
                    _codes(m['optstring']), m['optstring'], rules, ', '.join(m['defaults']),
                    m['facts']['getoptExit'], m['facts']['noArgsExit'], m['facts']['noCmdExit'],
                    m['facts']['ifaceErrExit'],
@@ -602,11 +890,32 @@ def render(snap, namespace='PyIpmi.Gen.Cli', header=None):
                    v.index(s['ipmi.session.set_session_type_rmcp'][2]),
                    v.index(s['ipmi.session.set_auth_type_user'][1]),
                    v.index(s['ipmi.session.set_auth_type_user'][2]),
-                   v.index(s['ipmi.session.set_priv_level'][1])))
+                   v.index(s['ipmi.session.set_priv_level'][1]), _bool(m['close_inside'])))
     out.append('')
     out.append('/-- `except` clauses around `ipmi.open(); cmd(ipmi, args)` -/')
     out.append('def exits : List ExitClause := [\n' + ',\n'.join(
         '  /- %s -/ ⟨%s, %s, %d⟩' % (short, kind, msg, status) for kind, msg, status, short in m['clauses']) + ']')
+    out.append('')
+    out.append('/-- the exception classes of `pyipmi/errors.py`, in source order -/')
+    out.append('def errorClasses : List String := [' + ', '.join(_lean_str(n) for n in snap['errors']) + ']')
+    out.append('')
+    names_by_idx = [c['name'] for c in snap['commands']]
+    out.append('/-- every `int(args[k])` (base0 = false) / `int(args[k], 0)` (true) of a handler: entry, k, base0 -/')
+    out.append('def argConvs : List ArgConv := [' + ', '.join(
+        '/- %s -/ ⟨%d, %d, %s⟩' % (names_by_idx[e], e, k, _bool(b0)) for e, k, b0 in snap['arg_convs']) + ']')
+    out.append('')
+    h = snap['handlers']
+    out.append('/-- the printing handlers -/')
+    out.append('def handlers : HandlerShape := {\n  linkNoneGuard := %s\n  idStringGuard := %s\n  entityGuard := %s\n'
+               '  convCatch := [%s] }' % (
+                   _bool(h['link']), _bool(h['idstring']), _bool(h['entity']),
+                   ', '.join('(%s, [%s])' % (_lean_str(n), ', '.join(_lean_str(x) for x in l)) for n, l in h['catch'])))
+    out.append('')
+    out.append('/-- `SdrCommon.from_data`: record type ↦ (class sets `device_id_string`, class sets `entity_id`) -/')
+    out.append('def sdrClasses : List (Nat × Bool × Bool) := [' + ', '.join(
+        '/- %s -/ (0x%02x, %s, %s)' % (c, t, _bool(a), _bool(b)) for t, c, a, b in snap['sdr_classes']) + ']')
+    out.append('/-- every other record type: %s -/' % snap['sdr_default'][0])
+    out.append('def sdrDefault : Bool × Bool := (%s, %s)' % (_bool(snap['sdr_default'][1]), _bool(snap['sdr_default'][2])))
     out.append('')
     out.append('/-- `NAME` of every class in `pyipmi.interfaces.INTERFACES` -/')
     out.append('def interfaces : List Str := [' + ', '.join('/- %s -/ %s' % (n, _codes(n)) for n in snap['interfaces']) + ']')
